@@ -1,6 +1,8 @@
 package main
 
 import (
+	"github.com/kstenerud/go-concise-encoding/ce"
+	"reflect"
 	"fmt"
 	"math/big"
 	"strings"
@@ -639,6 +641,12 @@ func runC13(r *Run) {
 		if idx%3 != 0 {
 			evs, mode = mutateMarkers(rng, evs)
 		}
+		if idx%4 == 1 {
+			evs, mode = markerTemplate(rng), "template"
+		}
+		if idx%8 == 3 {
+			c13BuildRefs(r, rng, cfg)
+		}
 		id := fmt.Sprintf("%d", idx)
 		text := EventsText(evs)
 		verdict, fwd := runRules(evs, cfg)
@@ -654,6 +662,104 @@ func runC13(r *Run) {
 		r.out.Line("corr", id, "RULES", []string{rc.text(), text}, verdict+" "+EventsText(fwd))
 		r.out.Line("prop", id, "WF.REL", []string{rc.text(), text, verdict}, "1")
 	})
+}
+
+// markerTemplate: one identifier, referenced several times in value and key positions, before
+// and after its marker, the marked object keyable or not - every order of the components.
+func markerTemplate(rng *Rng) []Event {
+	id := []byte("x")
+	var comps [][]Event
+	nV, nK := rng.Intn(3), rng.Intn(3)
+	for i := 0; i < nV; i++ {
+		comps = append(comps, []Event{{K: "ref", D: id}})
+	}
+	for i := 0; i < nK; i++ {
+		comps = append(comps, []Event{{K: "m"}, {K: "ref", D: id}, {K: "i", I: int64(i)}, {K: "end"}})
+	}
+	var obj []Event
+	switch rng.Intn(7) {
+	case 0:
+		obj = []Event{{K: "i", I: 100}}
+	case 1:
+		obj = []Event{{K: "s", AT: events.ArrayTypeString, D: []byte("str")}}
+	case 2:
+		obj = []Event{{K: "l"}, {K: "i", I: 1}, {K: "i", I: 2}, {K: "end"}}
+	case 3:
+		obj = []Event{{K: "m"}, {K: "end"}}
+	case 4:
+		obj = []Event{{K: "n"}}
+	case 5:
+		obj = []Event{{K: "fl", F: 1.5}}
+	default:
+		obj = []Event{{K: "a", AT: events.ArrayTypeUint8, N: 2, D: []byte{1, 2}}}
+	}
+	if rng.P(4, 5) {
+		comps = append(comps, append([]Event{{K: "mk", D: id}}, obj...))
+	}
+	for i := len(comps) - 1; i > 0; i-- {
+		k := rng.Intn(i + 1)
+		comps[i], comps[k] = comps[k], comps[i]
+	}
+	out := []Event{{K: "bd"}, {K: "v"}, {K: "l"}}
+	for _, c := range comps {
+		out = append(out, c...)
+	}
+	return append(out, Event{K: "end"}, Event{K: "ed"})
+}
+
+// c13BuildRefs: "when such a document is built into Go values every reference is replaced by
+// the marked value" - lists holding one marked integer and references to it before (forward)
+// and after (backward) the marker, long enough for the destination slice to be reallocated.
+func c13BuildRefs(r *Run, rng *Rng, cfg *configuration.Configuration) {
+	n := 1 + rng.Intn(24)
+	mpos := rng.Intn(n)
+	marked := int64(1000 + rng.Intn(1000))
+	evs := []Event{{K: "bd"}, {K: "v"}, {K: "l"}}
+	want := make([]int64, n)
+	isRef := make([]bool, n)
+	for i := 0; i < n; i++ {
+		switch {
+		case i == mpos:
+			evs = append(evs, Event{K: "mk", D: []byte("a")}, Event{K: "i", I: marked})
+			want[i] = marked
+		case rng.P(1, 3):
+			evs = append(evs, Event{K: "ref", D: []byte("a")})
+			want[i] = marked
+			isRef[i] = true
+		default:
+			want[i] = int64(i)
+			evs = append(evs, Event{K: "i", I: int64(i)})
+		}
+	}
+	evs = append(evs, Event{K: "end"}, Event{K: "ed"})
+	doc, err := cbeEncode(evs, cfg)
+	if err != nil {
+		return
+	}
+	for _, tmpl := range []interface{}{nil, []int64{}, []interface{}{}} {
+		v, uerr, pan := safeCall(func() (interface{}, error) { return ce.UnmarshalFromCBEDocument(doc, tmpl, cfg) })
+		name := fmt.Sprintf("%T", tmpl)
+		r.out.Count("build-refs:" + name)
+		if pan != nil || uerr != nil {
+			r.out.Finding("C13", "build-refs-error:"+name, fmt.Sprintf("a list with references to a marked integer does not unmarshal into %s: %v %v", name, uerr, pan), EventsText(evs))
+			continue
+		}
+		rv := reflect.ValueOf(v)
+		ok := rv.Kind() == reflect.Slice && rv.Len() == n
+		for i := 0; ok && i < n; i++ {
+			el := rv.Index(i)
+			for el.Kind() == reflect.Interface && !el.IsNil() {
+				el = el.Elem()
+			}
+			x, isNum := numericRat(el)
+			if !isNum || x.Cmp(new(big.Rat).SetInt64(want[i])) != 0 {
+				ok = false
+			}
+		}
+		if !ok {
+			r.out.Finding("C13", "build-refs-wrong:"+name, fmt.Sprintf("references are not replaced by the marked value: got %s, want %v", trunc(dumpValue(v), 300), want), EventsText(evs))
+		}
+	}
 }
 
 // mutateMarkers: unknown / duplicate / type-mismatched identifiers, markers on markers etc.
